@@ -945,7 +945,7 @@ class Executor:
         sz = sizeof_type(loc.ty)
         self.bounds_oblig(p, sz, st, n, 'read ' + cast_mod.src_of(self.tu, n))
         r = p.region
-        if r.kind in ('local', 'struct') and r.uid in st.mem:
+        if r.kind in ('local', 'struct', 'malloc') and r.uid in st.mem:
             off = z3.simplify(p.off)
             if z3.is_int_value(off) and off.as_long() == 0:
                 return st.mem[r.uid]
@@ -1035,6 +1035,9 @@ class Executor:
                         st.vars[r.owner] = v
                     st.mem[r.uid] = v
                     return
+            hw = self.externs.get('write:' + r.kind)
+            if hw:
+                hw(self, st, p, v, loc.ty, n)
             st.stores.append((r, p.off, sz, list(st.path()), n.get('line')))
             return
         raise Unsupported('write loc %r' % (loc,))
